@@ -37,6 +37,9 @@ type Config struct {
 	Pin          map[string]uint64 // concrete re-execution: input variable values
 	PinDecisions []int
 	Params       map[string]int
+	CrossEvery   int // re-decide one in CrossEvery assertion verdicts with cvc5 and z3 5.1 (0: off)
+	CrossMax     int // at most this many re-decided verdicts per harness
+	Seed         int
 }
 
 func (c *Config) isRepoPkg(path string) bool {
@@ -50,7 +53,7 @@ func (c *Config) isRepoPkg(path string) bool {
 
 var defaultAllowed = []string{
 	"errors", "container/list", "sort", "strings", "bytes", "unicode/utf8", "unicode", "math/bits", "math",
-	"crypto/subtle", "context", "sync/atomic", "sync", "io", "strconv", "slices", "cmp", "maps",
+	"crypto/subtle", "context", "sync/atomic", "sync", "io", "bufio", "strconv", "slices", "cmp", "maps",
 	"internal/bytealg", "internal/byteorder", "encoding/binary", "encoding/base64", "hash/fnv", "hash/maphash", "hash",
 	"github.com/pkg/errors", "github.com/awnumar/memcall", "github.com/awnumar/memguard", "github.com/awnumar/memguard/core",
 	"github.com/aws/aws-sdk-go/aws", "github.com/aws/aws-sdk-go-v2/aws",
@@ -142,10 +145,13 @@ type Explorer struct {
 	AssertsConc  int
 	Steps        int64
 	Samples      []map[string]interface{}
+	PassingPaths []Violation // sampled completed paths without violations, with a model: replayed natively for agreement
 	Solver       smt.Stats
 	Wall         float64
 	stop         bool
 	threadExit   chan struct{}
+	assertSeq    int64
+	crossDone    int64
 }
 
 func NewExplorer(cfg *Config, p *Program) *Explorer {
@@ -326,6 +332,11 @@ func (ex *Explorer) merge(in *Interp, r *PathResult) {
 			dv[i] = d.Chosen
 		}
 		ex.Samples = append(ex.Samples, map[string]interface{}{"harness": ex.cfg.Entry, "decisions": dv, "tags": r.Tags, "model": r.Sample, "steps": r.Steps})
+		var reached []string
+		for k := range r.Reach {
+			reached = append(reached, k)
+		}
+		ex.PassingPaths = append(ex.PassingPaths, Violation{Harness: ex.cfg.Entry, Kind: "pass", Decisions: dv, Choices: r.SampleCh, Model: r.SampleFull, Tags: reached})
 	}
 	if ex.cfg.MaxPaths > 0 && ex.Paths >= ex.cfg.MaxPaths && !ex.stop {
 		ex.stop = true
@@ -412,6 +423,8 @@ func (in *Interp) finishPath(r interface{}, res *PathResult) {
 		if len(res.Violations) == 0 && len(in.ex.Samples) < 3 {
 			if rr, model := in.sol.CheckModel(in.modelVars()); rr == smt.Sat {
 				res.Sample = trimModel(model)
+				res.SampleFull = model
+				res.SampleCh = in.choiceVector()
 			}
 		}
 	case pathAbort:
